@@ -2,64 +2,10 @@
 package main
 
 import (
-	"flag"
-	"fmt"
 	"os"
-	"path/filepath"
-	"strconv"
 
 	"verif/harness/fw"
 	_ "verif/harness/mon"
 )
 
-func main() {
-	if len(os.Args) < 2 {
-		fmt.Println("usage: verifcheck run|worker|replay|list ...")
-		os.Exit(fw.ExitUsage)
-	}
-	fs := flag.NewFlagSet(os.Args[1], flag.ExitOnError)
-	prop := fs.String("prop", "", "property id")
-	tier := fs.String("tier", "quick", "quick|thorough")
-	caseFile := fs.String("case", "", "case file (worker)")
-	outFile := fs.String("out", "", "result file (worker)")
-	opLog := fs.String("oplog", "", "operation log (worker)")
-	file := fs.String("file", "", "replay file")
-	fs.Parse(os.Args[2:])
-	if t := os.Getenv("VERIF_TIER"); t != "" && os.Args[1] == "run" {
-		// the command line decides; VERIF_TIER is only used when the wrapper passes none
-		_ = t
-	}
-	if os.Args[1] == "list" {
-		for _, id := range fw.IDs() {
-			fmt.Println(id)
-		}
-		return
-	}
-	p := fw.Lookup(*prop)
-	if p == nil {
-		fmt.Printf("unknown property %q (have %v)\n", *prop, fw.IDs())
-		os.Exit(fw.ExitUsage)
-	}
-	verifDir := os.Getenv("VERIF_DIR")
-	if verifDir == "" {
-		verifDir, _ = os.Getwd()
-	}
-	verifDir, _ = filepath.Abs(verifDir)
-	switch os.Args[1] {
-	case "run":
-		seed := int64(1)
-		if s := os.Getenv("VERIF_SEED"); s != "" {
-			if v, err := strconv.ParseInt(s, 10, 64); err == nil {
-				seed = v
-			}
-		}
-		os.Exit(fw.RunCheck(p, *tier, seed, verifDir))
-	case "worker":
-		os.Exit(fw.RunWorker(p, *tier, *caseFile, *outFile, *opLog))
-	case "replay":
-		os.Exit(fw.Replay(p, *file))
-	default:
-		fmt.Println("unknown command", os.Args[1])
-		os.Exit(fw.ExitUsage)
-	}
-}
+func main() { os.Exit(fw.Main()) }
